@@ -1,8 +1,15 @@
-From SV Require Import Alloc.AllocStep Alloc.LifeProps World.WorldSpec World.Micro Props.C17.
+From SV Require Import Alloc.LifeProps Alloc.AllocRefine World.WorldSpec World.Simulation World.Micro.
+From SV Require Import Props.C17.
 Check (C17_index_bounded : forall tr pre pend c post, saccept s_init tr 0 = None ->
   micro_run s_init tr = pre ++ (ACreate pend, c) :: post ->
   c < lpeak l_init (pre ++ [(ACreate pend, c)]) 0).
-Check (C17_faithful_refines_spec : forall os, saccept s_init (combine os (snd (wrun true w_init os))) 0 = None).
+Check (C17_fresh_only_when_full : forall tr pre pend c post, saccept s_init tr 0 = None ->
+  micro_run s_init tr = pre ++ (ACreate pend, c) :: post ->
+  let s := fst (lrun l_init pre) in
+  (cell s c = Never -> c = used s /\ forall j, j < c -> occupied (cell s j) = true) /\
+  (cell s c <> Never -> is_free (cell s c) = true)).
+Check (C17_faithful_refines_spec : forall os,
+  saccept s_init (combine os (snd (wrun true w_init os))) 0 = None).
 Check (C17_refuted_unfixed : exists os,
   saccept s_init (combine os (snd (wrun false w_init os))) 0 = Some (2%nat, 2%nat) /\
   nth 2 (snd (wrun false w_init os)) WSkip = WHandles [(4, 1%Z)]).
